@@ -85,7 +85,7 @@ def one_writer(ctx, r, symlink=False):
         base.close()
 
 
-def one_reader(ctx, r, legacy=False):
+def one_reader(ctx, r, legacy=False, writer=None, reader=None):
     """the converse schedule: a *reader* is parked after each of its own calls on the log (open, every read, close), a writer runs to completion
     meanwhile, the reader goes on — it must succeed and show the state before or after that writer.  Half of the stores end in the torn
     fragment of a killed writer (which the reader skips and the writer repairs)."""
@@ -105,6 +105,8 @@ def one_reader(ctx, r, legacy=False):
         label, wargv, wstdin = crash.multi_event_command(r, v) if r.p(60) else ("new-task", ["--json", "new", "task"], b'{"title":"w"}')
         if legacy:
             label, wargv, wstdin = r.pick([("compact", ["--json", "compact"], None), ("plan", ["--json", "plan"], b'{"title":"P","tasks":[{"title":"a"}]}')])
+        if writer is not None:
+            label, wargv, wstdin = writer
         wenv = {"VERIF_RAND": str(r.next() % (1 << 40))}
         done = crash.clone(base)
         try:
@@ -116,6 +118,8 @@ def one_reader(ctx, r, legacy=False):
             return
         some_id = r.pick(v.tasks) if v.tasks else "ZZZZZZ"
         rargv = r.pick([["--json", "list", "--all"], ["--json", "list", "--all"], ["--json", "show", some_id], ["list", "--all"]])
+        if reader is not None:
+            rargv = reader
         def view_of(res, g=None):
             if rargv[:3] == ["--json", "list", "--all"]:
                 return sorted((i["id"], i["state"], i.get("claimed_by", ""), i["title"], i.get("epic_id", "")) for i in json.loads(res["stdout"]))
@@ -133,6 +137,8 @@ def one_reader(ctx, r, legacy=False):
                 refs.append(view_of(rr) if rr["exit"] == 0 else ("exit", rr["exit"]))
             finally:
                 t.close()
+        if reader is not None and refs[0] == []:
+            return "empty"          # nothing to tell apart from an unreadable log: the caller draws another store
         solo = crash.clone(base)
         try:
             rc, _, _, rsteps = strace.run(solo, rargv, calls=calls)
@@ -198,7 +204,13 @@ def run(ctx):
     r = gen.Rng(ctx.seed * 1000003 + 13)
     for i in range(7 if ctx.quick else 120):
         one_writer(ctx, r.fork())
-    for i in range(7 if ctx.quick else 100):
+    # every rewriting command against a parked reader, on both layouts of the store — enumerated, not drawn
+    for legacy in (True, False):
+        for writer in (("compact", ["--json", "compact"], None), ("plan", ["--json", "plan"], b'{"title":"P","tasks":[{"title":"a"}]}')):
+            for _ in range(6):
+                if one_reader(ctx, r.fork(), legacy=legacy, writer=writer, reader=["--json", "list", "--all"]) != "empty":
+                    break
+    for i in range(4 if ctx.quick else 100):
         one_reader(ctx, r.fork(), legacy=(i % 3 == 2))
     ctx.cov["rule"] = ("readers parked after each of their own calls on the log (open/read/close) while a writer runs to completion, on logs with and without a torn tail; "
                        "for generated pre-states × writer kinds (claim, set, create-with-state, sequence chain, prune --yes, plan, compact): the real writer is parked (strace SIGSTOP injection) "
